@@ -471,9 +471,13 @@ def poc_gradient_zero_crossing(force, ret_details=False):
                 # want the rolling median filter from the edge and not at the
                 # center of the array (and two times, because we did two
                 # filter operations).
-                cp = y.size - np.where(gradpos[::-1])[0][0] - cutoff + filtsize
+                cpi = y.size - np.where(gradpos[::-1])[0][0] - cutoff + filtsize
+                if cpi < y.size:
+                    # The shift by `filtsize` must not move the estimate
+                    # beyond the end of the data.
+                    cp = cpi
 
-                if ret_details:
+                if ret_details and not np.isnan(cp):
                     # scale the gradient so that it aligns with the force
                     x = np.arange(gradn.size)
                     details["plot force gradient"] = [x, gradn]
